@@ -262,6 +262,13 @@ void SQuIDS::Set_xrange(double xi, double xf, std::string type){
   }else{
     throw std::runtime_error("SQUIDS::Set_xrange : Not well deffined X range");
   }
+  //The end nodes are the requested end points themselves, not their images
+  //under rounding (exp(log(xf)) or xi+(xf-xi) need not reproduce xf), so that
+  //the whole requested range, ends included, can be looked up.
+  if(nx>1){
+    x[0]=xi;
+    x[nx-1]=xf;
+  }
 }
 
 double SQuIDS::GetExpectationValue(SU_vector op, unsigned int nrh, unsigned int i) const{
